@@ -495,19 +495,26 @@ Definition top_fuel (c0 : cmd) : nat := S (S (depth (build_self c0))).
 (** the class of the whole-parse theorems, all boolean: [plain] and [valid] (as for C01), no
     [ignore_errors], no argument accepting hyphen values and no subcommand named [--] at any level
     ([esc_okb]), no global arguments ([globals_free] of the fully built tree) *)
-Definition esc_class (c0 : cmd) : bool :=
-  plain c0 && valid c0 && esc_okb (top_fuel c0) (build_self c0) && globals_free (build_recursive (top_fuel c0) c0).
+Definition esc_class0 (c0 : cmd) : bool := plain c0 && valid c0 && esc_okb (top_fuel c0) (build_self c0).
+Definition esc_class (c0 : cmd) : bool := esc_class0 c0 && globals_free (build_recursive (top_fuel c0) c0).
+
+Lemma esc_class0_ok c0 : esc_class0 c0 = true ->
+  valid c0 = true /\ esc_ok (top_fuel c0) (build_self c0) /\ is_set s_ignore_errors (build_self c0) = false.
+Proof.
+  unfold esc_class0. intros H. apply andb_true_iff in H as [H H3]. apply andb_true_iff in H as [H1 H2].
+  split; [exact H2|].
+  pose proof H2 as Hv. unfold valid in Hv. cbn zeta in Hv.
+  pose proof (tree_ok_of_valid _ _ H1 Hv) as Hok.
+  pose proof (esc_ok_of _ _ Hok H3) as He. split; [exact He|].
+  unfold top_fuel in He. cbn [esc_ok] in He. exact (proj1 (proj2 (proj2 He))).
+Qed.
 
 Lemma esc_class_ok c0 : esc_class c0 = true ->
   valid c0 = true /\ esc_ok (top_fuel c0) (build_self c0) /\ is_set s_ignore_errors (build_self c0) = false
   /\ globals_free (build_recursive (top_fuel c0) c0) = true.
 Proof.
-  unfold esc_class. intros H. apply andb_true_iff in H as [H H4]. apply andb_true_iff in H as [H H3].
-  apply andb_true_iff in H as [H1 H2]. split; [exact H2|].
-  pose proof H2 as Hv. unfold valid in Hv. cbn zeta in Hv.
-  pose proof (tree_ok_of_valid _ _ H1 Hv) as Hok.
-  pose proof (esc_ok_of _ _ Hok H3) as He. split; [exact He|]. split; [|exact H4].
-  unfold top_fuel in He. cbn [esc_ok] in He. exact (proj1 (proj2 (proj2 He))).
+  unfold esc_class. intros H. apply andb_true_iff in H as [H H4].
+  destruct (esc_class0_ok c0 H) as (A & B & C). auto.
 Qed.
 
 (** (3): for every command of the class, every prefix and every non-empty tail: a successful parse
@@ -702,10 +709,10 @@ Proof. vm_compute. reflexivity. Qed.
 (** (1) for the entry points: a DisplayHelp/DisplayVersion outcome of [pre ++ -- :: t1] is the outcome
     for every other tail *)
 Theorem do_parse_display_not_from_tail c0 pre t1 t2 e :
-  esc_class c0 = true -> do_parse c0 (pre ++ dashdash :: t1) = OErr e -> is_display (e_kind e) = true ->
+  esc_class0 c0 = true -> do_parse c0 (pre ++ dashdash :: t1) = OErr e -> is_display (e_kind e) = true ->
   do_parse c0 (pre ++ dashdash :: t2) = OErr e.
 Proof.
-  intros Hc. destruct (esc_class_ok c0 Hc) as (Hv & Hok & Hig & Hg).
+  intros Hc. destruct (esc_class0_ok c0 Hc) as (Hv & Hok & Hig).
   unfold do_parse. rewrite Hv. cbn [negb]. fold (top_fuel c0). rewrite Hig. cbn [andb].
   destruct (get_matches_with (top_fuel c0) (build_self c0) (pre ++ dashdash :: t1) ps_new) as [st|e1 st|x] eqn:Eg.
   - discriminate.
@@ -715,7 +722,7 @@ Proof.
 Qed.
 
 Theorem parse_top_display_not_from_tail c0 bin pre t1 t2 e :
-  esc_class c0 = true -> is_set s_no_binary_name c0 = false -> c_bin_name c0 <> None ->
+  esc_class0 c0 = true -> is_set s_no_binary_name c0 = false -> c_bin_name c0 <> None ->
   parse_top c0 (bin :: pre ++ dashdash :: t1) = OErr e -> is_display (e_kind e) = true ->
   parse_top c0 (bin :: pre ++ dashdash :: t2) = OErr e.
 Proof.
